@@ -1,17 +1,35 @@
-import Mathlib.Order.Defs.LinearOrder
 import Lemmas.QuadTreeTree
-/-! Pruning laws that need NO arithmetic: `geom`'s predicates only COMPARE the four values `X`, `Y`, `Right()`, `Bottom()`
-    of each rectangle, so for any linearly ordered coordinate type with ARBITRARY `+` and `-` (rounding like `float64`,
-    wrapping like `int`, anything) containment in a node's rectangle implies the node test of the point and the
-    intersection queries; for the two containment queries it does so as soon as the rectangle in the middle has a
-    representable point (`X < Right()` and `Y < Bottom()`: `QT.Proper`) — which is exactly what fails in the known
-    findings of C07 (a float width absorbed by rounding, an int `X+Width` that wraps).  The query theorems are restated
-    with a pruning hypothesis restricted to STORED items. -/
+import Model.QuadTreeI64
+/-! Pruning laws that need NO arithmetic and almost no order theory: `geom`'s predicates only COMPARE the four values `X`,
+    `Y`, `Right()`, `Bottom()` of each rectangle, so for ANY coordinate type with a `≤` and a `<` that satisfy the three
+    transitivity laws of `QT.OrdLaws` — no antisymmetry, no totality, nothing about `min`/`max` (they only shape the
+    root that `Reorganize` computes), ARBITRARY `+` and `-` (rounding like `float64`, wrapping like `int`) — containment
+    in a node's rectangle implies the node test of the point and the intersection queries; for the two containment
+    queries it does so as soon as the rectangle in the middle has a representable point (`X < Right()` and
+    `Y < Bottom()`: `QT.Proper`) — which is exactly what fails in the known findings of C07 (a float width absorbed by
+    rounding, an int `X+Width` that wraps).  IEEE-754 comparisons satisfy the three laws for ALL doubles (a NaN makes a
+    premise false; `-0` and `+0` compare equal, which no law forbids), machine integers satisfy them (`ordLawsInt64`).
+    The query theorems are restated with a pruning hypothesis restricted to STORED items.  Core Lean only. -/
 namespace QT
 open Geom
 
+/-- all that the pruning argument needs of the comparisons of the coordinate type -/
+structure OrdLaws (α : Type) [LE α] [LT α] : Prop where
+  le_trans : ∀ a b c : α, a ≤ b → b ≤ c → a ≤ c
+  lt_of_lt_of_le : ∀ a b c : α, a < b → b ≤ c → a < c
+  lt_of_le_of_lt : ∀ a b c : α, a ≤ b → b < c → a < c
+
+theorem ordLawsInt : OrdLaws Int := ⟨fun _ _ _ => Int.le_trans, fun _ _ _ => Int.lt_of_lt_of_le, fun _ _ _ => Int.lt_of_le_of_lt⟩
+
+/-- Go's `int` comparisons -/
+theorem ordLawsInt64 : OrdLaws Int64 where
+  le_trans a b c h1 h2 := by rw [Int64.le_iff_toInt_le] at *; omega
+  lt_of_lt_of_le a b c h1 h2 := by rw [Int64.lt_iff_toInt_lt] at *; rw [Int64.le_iff_toInt_le] at h2; omega
+  lt_of_le_of_lt a b c h1 h2 := by rw [Int64.lt_iff_toInt_lt] at *; rw [Int64.le_iff_toInt_le] at h1; omega
+
+set_option linter.unusedSectionVars false
 section Order
-variable {α : Type} [LinearOrder α] [Add α] [Sub α] [OfNat α 0]
+variable {α : Type} [LE α] [LT α] [DecidableLE α] [DecidableLT α] [Max α] [Min α] [Add α] [Sub α] [OfNat α 0]
 
 /-- the rectangle has a representable point as the machine computes its far edges -/
 def Proper (r : Rect α) : Prop := r.x < r.right ∧ r.y < r.bottom
@@ -31,59 +49,37 @@ theorem inRect_iff_ord (p : Point α) (r : Rect α) : p.inRect r = true ↔
   unfold Point.inRect
   cases hr : r.empty <;> simp [and_assoc]
 
-theorem prune_point_ord (a b : Rect α) (p : Point α) (h : a.contains b = true) (hp : p.inRect b = true) :
+theorem prune_point_ord (O : OrdLaws α) (a b : Rect α) (p : Point α) (h : a.contains b = true) (hp : p.inRect b = true) :
     p.inRect a = true := by
   rw [contains_iff_ord] at h; rw [inRect_iff_ord] at hp ⊢
   obtain ⟨a0, _, a1, a2, a3, a4⟩ := h
   obtain ⟨_, p1, p2, p3, p4⟩ := hp
-  exact ⟨a0, le_trans a1 p1, le_trans a2 p2, lt_of_lt_of_le p3 a3, lt_of_lt_of_le p4 a4⟩
+  exact ⟨a0, O.le_trans _ _ _ a1 p1, O.le_trans _ _ _ a2 p2, O.lt_of_lt_of_le _ _ _ p3 a3, O.lt_of_lt_of_le _ _ _ p4 a4⟩
 
-theorem prune_intersects_ord (a b q : Rect α) (h : a.contains b = true) (hq : b.intersects q = true) :
+theorem prune_intersects_ord (O : OrdLaws α) (a b q : Rect α) (h : a.contains b = true) (hq : b.intersects q = true) :
     a.intersects q = true := by
   rw [contains_iff_ord] at h; rw [intersects_iff_ord] at hq ⊢
   obtain ⟨a0, _, a1, a2, a3, a4⟩ := h
   obtain ⟨_, q0, q1, q2, q3, q4⟩ := hq
-  exact ⟨a0, q0, lt_of_le_of_lt a1 q1, lt_of_le_of_lt a2 q2, lt_of_lt_of_le q3 a3, lt_of_lt_of_le q4 a4⟩
+  exact ⟨a0, q0, O.lt_of_le_of_lt _ _ _ a1 q1, O.lt_of_le_of_lt _ _ _ a2 q2, O.lt_of_lt_of_le _ _ _ q3 a3, O.lt_of_lt_of_le _ _ _ q4 a4⟩
 
-theorem prune_containsRect_ord (a b q : Rect α) (hq : q.empty = false → Proper q) (h : a.contains b = true)
+theorem prune_containsRect_ord (O : OrdLaws α) (a b q : Rect α) (hq : q.empty = false → Proper q) (h : a.contains b = true)
     (h2 : b.contains q = true) : a.intersects q = true := by
   rw [contains_iff_ord] at h h2; rw [intersects_iff_ord]
   obtain ⟨a0, _, a1, a2, a3, a4⟩ := h
   obtain ⟨_, q0, b1, b2, b3, b4⟩ := h2
   have hq := hq q0
-  exact ⟨a0, q0, lt_of_le_of_lt (le_trans a1 b1) hq.1, lt_of_le_of_lt (le_trans a2 b2) hq.2,
-    lt_of_lt_of_le hq.1 (le_trans b3 a3), lt_of_lt_of_le hq.2 (le_trans b4 a4)⟩
+  exact ⟨a0, q0, O.lt_of_le_of_lt _ _ _ (O.le_trans _ _ _ a1 b1) hq.1, O.lt_of_le_of_lt _ _ _ (O.le_trans _ _ _ a2 b2) hq.2,
+    O.lt_of_lt_of_le _ _ _ hq.1 (O.le_trans _ _ _ b3 a3), O.lt_of_lt_of_le _ _ _ hq.2 (O.le_trans _ _ _ b4 a4)⟩
 
-theorem prune_containedBy_ord (a b q : Rect α) (hb : Proper b) (h : a.contains b = true) (h2 : q.contains b = true) :
+theorem prune_containedBy_ord (O : OrdLaws α) (a b q : Rect α) (hb : Proper b) (h : a.contains b = true) (h2 : q.contains b = true) :
     a.intersects q = true := by
   rw [contains_iff_ord] at h h2; rw [intersects_iff_ord]
   obtain ⟨a0, _, a1, a2, a3, a4⟩ := h
   obtain ⟨q0, _, b1, b2, b3, b4⟩ := h2
-  exact ⟨a0, q0, lt_of_le_of_lt a1 (lt_of_lt_of_le hb.1 b3), lt_of_le_of_lt a2 (lt_of_lt_of_le hb.2 b4),
-    lt_of_le_of_lt b1 (lt_of_lt_of_le hb.1 a3), lt_of_le_of_lt b2 (lt_of_lt_of_le hb.2 a4)⟩
+  exact ⟨a0, q0, O.lt_of_le_of_lt _ _ _ a1 (O.lt_of_lt_of_le _ _ _ hb.1 b3), O.lt_of_le_of_lt _ _ _ a2 (O.lt_of_lt_of_le _ _ _ hb.2 b4),
+    O.lt_of_le_of_lt _ _ _ b1 (O.lt_of_lt_of_le _ _ _ hb.1 a3), O.lt_of_le_of_lt _ _ _ b2 (O.lt_of_lt_of_le _ _ _ hb.2 a4)⟩
 end Order
-
-/-- Go's `int` comparisons: `Int64` with its own `≤`, `<`, `min`, `max` is a linear order (arithmetic plays no role) -/
-@[reducible] def linearOrderInt64 : LinearOrder Int64 where
-  le := (· ≤ ·)
-  lt := (· < ·)
-  le_refl a := Int64.le_iff_toInt_le.mpr (Int.le_refl _)
-  le_trans a b c h1 h2 := Int64.le_iff_toInt_le.mpr (Int.le_trans (Int64.le_iff_toInt_le.mp h1) (Int64.le_iff_toInt_le.mp h2))
-  le_antisymm a b h1 h2 := Int64.toInt_inj.mp (Int.le_antisymm (Int64.le_iff_toInt_le.mp h1) (Int64.le_iff_toInt_le.mp h2))
-  le_total a b := by
-    rcases Int.le_total a.toInt b.toInt with h | h
-    · exact Or.inl (Int64.le_iff_toInt_le.mpr h)
-    · exact Or.inr (Int64.le_iff_toInt_le.mpr h)
-  lt_iff_le_not_ge a b := by
-    rw [Int64.lt_iff_toInt_lt, Int64.le_iff_toInt_le, Int64.le_iff_toInt_le]; omega
-  toDecidableLE := inferInstance
-  toDecidableEq := inferInstance
-  toDecidableLT := inferInstance
-  min := min
-  max := max
-  min_def a b := rfl
-  max_def a b := rfl
-
 
 /-! the query lemmas with a pruning hypothesis about stored items only -/
 variable {R P : Type} [L : RectOps R P]
